@@ -287,7 +287,7 @@ def judge(chk: Check, cases: T.List[T.Dict[str, T.Any]], label: str) -> None:
                 # re-run single-threaded so that the report is not interleaved
                 res1 = run_tlc(SPECS / 'tap', 'TraceTAP', env={'TRACE_FILE': str(tf)}, timeout=3600, workers=1, heap='12g')
                 bad = res1.json_lines()
-        chk.add_tlc(f'TraceTAP[{label}#{part_no}]', res)
+        chk.add_tlc(f'TraceTAP[{label}#{part_no}]', res, model=False)
         chk.traces += len(part)
         for v in bad:
             c = by_id.get(v['id'], {})
